@@ -66,6 +66,8 @@ def boundary_times(rng, tpl, files):
                 f.t0.replace(minute=0, second=0, microsecond=0)]
         if res is not None:
             base += [sadd(f.t0, res), sadd(f.t1, res), sadd(f.t0, -res)]
+        if f.t0 == f.t1:                      # zero-length: nothing after t0 may find it
+            base += [sadd(f.t0, dt.timedelta(hours=1)), sadd(f.t0, dt.timedelta(days=1)), sadd(f.t0, dt.timedelta(minutes=1))]
         for b in base:
             if b is not None:
                 pts += [b, sadd(b, G.US), sadd(b, -G.US)]
@@ -281,6 +283,26 @@ def check_oracle(ck, tpl, files, q, kind, val, case, black_ok):
                 ck.violation(label(""), f"time bundles not one per bin in ascending order: {bins[:8]}", case)
 
 
+def exposing_queries(f, got):
+    """periods on which a file with stated coverage [t0, t1] but parsed coverage `got` is wrongly
+    yielded / wrongly missed"""
+    mk = lambda s, e: {"start": s, "end": e, "sort": True, "bundle": None, "nferr": False, "filters": None,
+                       "xnames": [], "xtimes": [], "only_path": False, "kind": "expose"}
+    if isinstance(got, str):                      # get_info raised: any search touching the file raises
+        return [mk(None, None)]
+    p0, p1 = got
+    out = []
+    for a, b in ((f.t1, p1), (p1, f.t1)):         # end too late / too early
+        if a < b:
+            s, e = sadd(a, G.US), sadd(b, G.US)
+            if s is not None and e is not None:
+                out.append(mk(s, e))
+    for a, b in ((f.t0, p0), (p0, f.t0)):         # start too late / too early
+        if a < b:
+            out.append(mk(a if a.year > 1 else None, b))
+    return out
+
+
 def tie_groups(ids, byid):
     """[3, 1, 4] -> consecutive runs of equal sort key, each as a sorted id list (the order inside a
     run of equal (t0, t1) is the traversal order of the file system: not part of the property)"""
@@ -333,7 +355,10 @@ def run_population(ck, rng, scratch, tpl, files, time_cov, queries, extra, use_m
         base_case = {"op": "find", "template": tpl.to_json(), "files": [f.to_json() for f in files],
                      "time_cov_us": None if time_cov is None else time_cov // G.US, "zip": zipfs, "decoy_dirs": ddirs}
         byid = {f.id: f for f in files}
-        # the harness' own idea of every coverage must be what the code parses (C02's business otherwise)
+        # The coverage the code derives from a name must be the one the name states (the harness wrote
+        # the start and end stamps itself).  When it is not, find() works on a wrong coverage: add the
+        # periods that expose it, so that the oracle below reports a concrete failing input.
+        queries = list(queries)
         for f in files:
             try:
                 info = fs.get_info(paths_of[f.id])
@@ -341,9 +366,10 @@ def run_population(ck, rng, scratch, tpl, files, time_cov, queries, extra, use_m
             except Exception as e:  # noqa
                 got = f"{type(e).__name__}: {e}"
             if got != (f.t0, f.t1):
-                ck.count("skipped/parse-mismatch")
-                ck.notes.append(f"coverage parsed from {'/'.join(f.rel)} under {tpl.text()} is {got}, harness intended {(f.t0, f.t1)}")
-                return
+                ck.count("coverage-parse-mismatch")
+                if len(ck.notes) < 20:
+                    ck.notes.append(f"coverage parsed from {'/'.join(f.rel)} under {tpl.text()} is {got}, the name states {(f.t0, f.t1)}")
+                queries += exposing_queries(f, got)
         ordered = G.traversal_sorted(tpl, files)
         lines = [tpl.layout_line(), "clear"] + [G.file_line(tpl, f) for f in ordered]
         nhead = len(lines)
